@@ -34,6 +34,9 @@ CHECKS = {
  "C11": ("E1-history-bfs", "explicit-state BFS over operation histories on the real stores, differential against a twin store and a reference set",
          "Every reachable state of 9 store types under direct and through-view mutations up to the stated depth is visited; in each state every view is compared with the projection of a reference quad set under all pattern shapes. Exhaustive within the bound, on the real code.",
          "Small-scope hypothesis (4 triples x 4 graph names, depth bound); rustc/std; the reference set model.", "DESIGN.md §4 C11"),
+ "C13": ("E2-shape-lattice", "exhaustive enumeration of the product (generated queries up to a size bound) x (all small datasets), each evaluation compared with a reference evaluator of the SPARQL 1.1 algebra",
+         "Every query generated from the supported grammar up to nesting depth 2 (BGPs with repeated variables, blank-node placeholders and quoted-triple patterns, UNION, GRAPH iri/?g incl. absent graphs and nested GRAPH, FILTER and BIND over expressions of depth <= 2 incl. unbound variables and type errors, DISTINCT, projection, OFFSET/LIMIT, ASK) is evaluated on every dataset of the bounded family and compared as a multiset of solutions with the reference; unsupported operators must answer NotImplemented; no panic.",
+         "Reference evaluator written from SPARQL 1.1 section 18; bounded query size and dataset size; OFFSET/LIMIT compared as sub-multisets of the right size.", "DESIGN.md §4 C13"),
  "C15": ("E1-history-bfs", "exhaustive fault enumeration: every (item sequence, source, adapter chain, drop sets, consumer, fault position) pipeline of the bounded space is executed on the real code and compared with a list model",
          "All pipelines of <= 3/4 items x 4 sources x 40+16 adapter chains (every word of length <= 3 over filter/map/filter_map, and to_quads variants) x drop sets x 12 consumers x every single source-fault and sink-fault position (and their combinations) are run; the consumer must see exactly the filtered prefix before the fault, in order, the error must be attributed to the right side with the injected payload, counts must be right and the source must not be pulled after the fault.",
          "Bounded item count and chain depth; parser read-ahead is not observed.", "DESIGN.md §4 C15"),
